@@ -33,6 +33,6 @@ MANIFEST = dict(
     text="Contracts on the stepping kernel of repetition constructs in as.c: REPT_Processor and IRP_Processor deliver body line LineZ, substitute "
          "exactly the current parameter group as tokens 1..n, advance (iteration, line) lexicographically and end exactly after the last line of "
          "the last iteration / parameter group, opening one local symbol space per iteration. Transparency itself (equality of two programs' "
-         "outputs) is not decidable by a per-call contract; argument binding, token substitution and INCLUDE are named unverified.",
+         "outputs) is not decidable by a per-call contract; argument binding, token substitution and INCLUDE are named unverified. Added: EXITM inside IRP (IRP_Cleanup safe when run twice), balanced local symbol spaces of a macro level (none for an empty body), IRPN group size, SHIFT inside nested repetitions, the whole-name rule of parameter substitution (IsValidParameterName for every line; CompressLine bounded).",
     note="Bounded: body <= 3 lines, <= 4 parameters, IRPN group <= 2 (iteration counts unbounded). Trusted: logging stubs for the string helpers.",
 )
